@@ -485,11 +485,13 @@ impl Poly {
         let mut cfg = gen_cfg(&mut rng, &gp);
         cfg.channels = 1;
         let deg = cfg.degree.degree();
-        let n_in: u64 = rng.logi(300, 20_000) as u64;
+        // short streams matter: the highest-order differences of a polynomial scaled to the stream
+        // length vanish like (1/length)^degree, so only short streams exercise the top coefficients
+        let n_in: u64 = rng.logi(40, 20_000) as u64;
         let mode = rng.ui(0, 9); // 0..6 polynomial of admissible degree, 7 degree+1 (sensitivity), 8..9 sinusoid
         let pre_ratio = if cfg.max_rel > 1.0 && rng.chance(0.3) { Some(gen_in_range_ratio(&mut rng, &cfg)) } else { None };
         let r_eff = pre_ratio.unwrap_or(cfg.ratio);
-        let n_in = n_in.min((400_000.0 / r_eff.max(1.0)) as u64).max(200);
+        let n_in = n_in.min((400_000.0 / r_eff.max(1.0)) as u64).max(40);
         let (c, s) = (n_in as f64 / 2.0, n_in as f64 / 2.0 + 8.0);
         let (sigkind, pmax, what, pdeg);
         if mode <= 7 {
